@@ -34,7 +34,7 @@ EXPLANATION = (
     "marker per scalar member, every presence flag set, lists of two, a named block per string), the public "
     "writer is executed with the encoder primitives hooked, the tree of (field id, wire type, value) it emits is "
     "replayed into the public parser executed with the decoder primitives hooked, and every member the writer "
-    "serialised must come back in the same member - independent of how writer and parser are organised. (8) thrift_write_varint / thrift_read_varint are LEB128 and thrift_write_binary writes LEB128(length) followed by exactly that many bytes, for values and lengths on either side of every 7-bit boundary (R38); the FileMetaData round-trip probe is repeated with every string empty (a zero-length string comes back as a string, not as absent). Decides these clauses, not value equality for "
+    "serialised must come back in the same member - independent of how writer and parser are organised. (8) thrift_write_varint / thrift_read_varint are LEB128 and thrift_write_binary writes LEB128(length) followed by exactly that many bytes, for values and lengths on either side of every 7-bit boundary (R38); the FileMetaData round-trip probe is repeated with every string empty (a zero-length string comes back as a string, not as absent). (9) the two string readers (arena_strdup_thrift, thrift_read_string_alloc) executed with only the lowest allocators hooked - carquet_arena_strdup / carquet_arena_strndup run as written - return a non-NULL NUL-terminated copy for every present string, the empty one included (NULL means `absent` to the writer). Decides these clauses, not value equality for "
     "extreme integers/strings.")
 
 PT = "src/thrift/parquet_types.c"
@@ -939,8 +939,72 @@ def _is_nibble(t):
     return t[0] == "bin" and t[1] == ">>" and t[3] == ("int", 4)
 
 
+def _string_readers(ctx):
+    """The two routines that turn a Thrift string into a C string - arena_strdup_thrift (parquet_types.c) and
+    thrift_read_string_alloc (thrift_decode.c) - executed with thrift_read_binary hooked to hand out (pointer, length) and
+    only the lowest allocators hooked, so the arena's own string functions run as written: a present string of length 0
+    comes back as a non-NULL pointer to a NUL byte (NULL means `field absent` to the writer and to every consumer), a
+    string of length n as its n bytes followed by NUL."""
+    from ..rules import sem
+    from ..rules.skeleton import Ptr
+    P = ctx.P
+    n = 0
+    for fname, file_, nargs in (("arena_strdup_thrift", "src/thrift/parquet_types.c", 2), ("thrift_read_string_alloc", "src/thrift/thrift_decode.c", 1)):
+        fn = P.fn_opt(fname, file_)
+        if fn is None:
+            continue
+        key = "string-reader|%s:%s" % (file_, fname)
+        what = "%s returns a present string as a non-NULL, NUL-terminated copy of its bytes - the empty string included" % fname
+        bad, done = None, 0
+        try:
+            for label, ptr, ln, text in (("a string of length 0 whose bytes pointer is valid", Ptr("in", 7, 1), 0, []),
+                                         ("a string of length 0 handed out as (NULL, 0)", 0, 0, []),
+                                         ("the string `abc`", Ptr("in", 7, 1), 3, [97, 98, 99]),
+                                         ("the one-byte string `z`", Ptr("in", 7, 1), 1, [122])):
+                k = [0]
+
+                def alloc(ev, a, it, k=k):
+                    k[0] += 1
+                    return Ptr("blk%d" % k[0], 0, 1)
+
+                def rbin(ev, a, it, ptr=ptr, ln=ln):
+                    sem.set_out(it, a[1], ln)
+                    return ptr
+                heap0 = {("in", 7 + i): b for i, b in enumerate(text + [0x55])}
+                do = sem.field_offsets(P, "thrift_decoder") if "thrift_decoder" in P.records else {}
+                if "status" in do:
+                    heap0[("dec", do["status"])] = 0
+                args = [Ptr("arena", 0, 1), Ptr("dec", 0, 1)] if nargs == 2 else [Ptr("dec", 0, 1)]
+                ret, ev, heap = sem.run(P, fn, args, heap0=heap0, single=True, max_forks=8, budget=200000, inline_depth=6,
+                                        hooks={"thrift_read_binary": rbin, "carquet_arena_alloc_aligned": alloc, "carquet_arena_alloc": alloc,
+                                               "carquet_arena_calloc": alloc, "malloc": alloc, "calloc": alloc})
+                done += 1
+                if bad is not None:
+                    continue
+                if not isinstance(ret, Ptr):
+                    bad = "%s: returns %s" % (label, "NULL - the field reads as absent" if ret == 0 else repr(ret)[:40])
+                    continue
+                got = [heap.get((ret.base, ret.off + i)) for i in range(len(text) + 1)]
+                if any(not isinstance(g, int) for g in got):
+                    raise sem.Inconclusive("%s: the bytes of the copy are %r" % (label, got))
+                if [g & 0xFF for g in got] != text + [0]:
+                    bad = "%s: the copy holds %r" % (label, bytes(g & 0xFF for g in got))
+        except (sem.Inconclusive, KeyError) as ex:
+            if bad:
+                ctx.ob("R5.string-reader", key, P.where(fn.body), what, False, bad)
+            else:
+                ctx.inconclusive("R5.string-reader", key, P.where(fn.body), what, "%s: %s" % (type(ex).__name__, ex))
+            continue
+        n += done
+        ctx.ob("R5.string-reader", key, P.where(fn.body), what + " (%d strings, the arena's string functions executed as written)" % done, bad is None, bad or "")
+    return n
+
+
 def run(ctx):
     _run(ctx)
+    ctx.clause("C13.9 a present string - the empty one included - is parsed into a non-NULL NUL-terminated copy (the arena's string functions executed as written under the two string readers)")
+    nsr = _string_readers(ctx)
+    ctx.floor("C13 strings through the string readers", nsr, 6)
     from ..rules import thriftrt
     from .. import report
     probes = [o for o in ctx.obs if o.key.startswith(("spec|", "roundtrip|"))]
